@@ -617,13 +617,16 @@ def run(ctx):
             known.append("C07-chunked-extent-alloc: %d dataset reads skipped in the worker (declared extent > 4 MiB + 4 x file size)" % notes["chunked-extent"])
 
     # ---- 3. parser level tie (Go parsers vs Coq decoder models) and model level tie (Robust models)
-    npar = parser_tie(ctx, viol, cov)
-    nmod = 0
+    npar = nmod = 0
+    try:
+        npar = parser_tie(ctx, viol, cov)
+    except Exception as e:          # a tie that cannot run is a broken correspondence, but must not hide the file-level results
+        viol.append(dict(what="parser-level tie could not run: %r" % (e,), nofail=True, correspondence="Go parsers vs Model/Codec*.v"))
     try:
         from props import c07model
         nmod = c07model.tie(ctx, viol, cov)
-    except ImportError:
-        cov["model_level"] = "not built"
+    except Exception as e:
+        viol.append(dict(what="model-level tie could not run: %r" % (e,), nofail=True, correspondence="Go functions vs Model/Robust*.v"))
 
     worst = sorted([r for r in clean_res + res if r.get("hwm_kb")], key=lambda r: -r["hwm_kb"] * 1024.0 / mem_bound(r.get("size", 0)))[:3]
     slow = sorted([r for r in clean_res + res if r.get("ms") is not None], key=lambda r: -r["ms"])[:3]
